@@ -91,7 +91,7 @@ def run_history(rec, case):
     rng = gen.mkrng('c16', case['seed'], case['i'])
     srv = rng.choice(['T', 'A'])
     if srv == 'A' and case.get('aio'):
-        srv = case['aio']    # asyncio server behind the aiohttp adapter
+        srv = case['aio']    # asyncio server behind the aiohttp / tornado adapter
         rec.count('histories_on_aiohttp_adapter')
     pi, pt = rng.choice([(5, 3), (1, 1), (2, 0.5), (25, 20)])
     monitor = rng.random() < 0.8
@@ -404,8 +404,10 @@ def run_shard(spec):
              for k in range(spec['n'])]
     for c in cases[::2]:
         c['aio'] = 'H'
+    for c in cases[2::4]:
+        c['aio'] = 'N'     # ... and behind the tornado adapter
     if spec['shard'] == 0:
-        scen.run_cases(rec, [{'block': [srv, how]} for srv in 'TAH'
+        scen.run_cases(rec, [{'block': [srv, how]} for srv in 'TAHN'
                              for how in ('disconnect-inside',
                                          'client-close-inside', 'control')],
                        run_block)
